@@ -5,13 +5,14 @@ variants (variants/*.patch, declared limits excluded) that touch the same file, 
 result must be silent. Prints the alarms; writes tools/varpairs_last.json."""
 import sys, os, re, glob, json, subprocess, tempfile, shutil, random
 from concurrent.futures import ThreadPoolExecutor
+subprocess.run(["/verif/tools/trimcache.sh"])
 n = 300
 if "--n" in sys.argv:
     n = int(sys.argv[sys.argv.index("--n") + 1])
 seed = 1
 if "--seed" in sys.argv:
     seed = int(sys.argv[sys.argv.index("--seed") + 1])
-LIMITS = {"v3-r1", "v4-r1", "v8-r2", "x8-r5"}
+LIMITS = {"v3-r1", "v4-r1", "v8-r2", "x8-r5", "q4-r1"}
 env = dict(os.environ, GOFLAGS="-mod=mod", GOPROXY="off", GOSUMDB="off", GOTOOLCHAIN="local")
 env.pop("GOWORK", None)
 def files(patch):
